@@ -206,6 +206,18 @@ func (db *DB) Backup(dir string) error {
 			}
 		}
 	}
+	// 目标目录可能留有上一次备份的文件: 数据源经过 merge 后文件变少变短, 残留的旧数据文件和 hint 文件
+	// 在备份目录被打开时会被当作有效数据重放, 必须先清除
+	if entries, err := os.ReadDir(dir); err == nil {
+		for _, entry := range entries {
+			name := entry.Name()
+			if strings.HasSuffix(name, string(datafile.DataFileSuffix)) || strings.HasSuffix(name, string(datafile.HintFileSuffix)) {
+				if err := os.Remove(filepath.Join(dir, name)); err != nil {
+					return err
+				}
+			}
+		}
+	}
 	// 将数据目录中的数据文件拷贝到指定目录中
 	return utils.CopyDir(db.options.DirPath, dir, []string{datafile.FileLockSuffix})
 }
